@@ -458,6 +458,18 @@ def check_defaults(acc, pendulum):
             got = f"raises {type(e).__name__}"
         if got != want:
             acc.mismatch("from_format", "defaults-from-now", {"kind": "def", "text": text, "fmt": fmt}, got, want)
+    for text, fmt, want in (("2020-366", "YYYY-DDDD", (2020, 12, 31)), ("2021-365", "YYYY-DDDD", (2021, 12, 31)), ("2021-001", "YYYY-DDDD", (2021, 1, 1)),
+                            ("2021-59", "YYYY-DDD", (2021, 2, 28)), ("2000-60", "YYYY-DDD", (2000, 2, 29)), ("1900-60", "YYYY-DDD", (1900, 3, 1)),
+                            ("12 PM", "H A", None), ("12 AM", "h A", None)):
+        acc.c["evaluations"] += 1
+        try:
+            r = pendulum.from_format(text, fmt)
+            got = [r.year, r.month, r.day] if want else [r.hour]
+        except Exception as e:  # noqa: BLE001
+            got = f"raises {type(e).__name__}"
+        exp = list(want) if want else [12 if "PM" in text else 0]
+        if got != exp:
+            acc.mismatch("from_format", "day-of-year" if want else "meridiem-12", {"kind": "def", "text": text, "fmt": fmt}, got, exp)
     # the public entry point: its 'now' is the current time IN THE REQUESTED ZONE.  The two zones are 26 hours apart, so at
     # any moment at least one of them is on another calendar day than the machine's zone; the clock is read before and
     # after the call and the case only judged when no midnight fell in between (the one place the real clock is consulted)
@@ -483,7 +495,12 @@ def check_defaults(acc, pendulum):
                              got, want)
     for text, fmt in (("2020-13-01", "YYYY-MM-DD"), ("2020-02-30", "YYYY-MM-DD"), ("20-02-2020x", "DD-MM-YYYY"), ("abc", "YYYY"),
                       ("2020-01-01", "YYYY/MM/DD"), ("13:00 PM", "hh:mm A"), ("25:00", "HH:mm"), ("Foo 2020", "MMMM YYYY"),
-                      ("2020-01-01 Europe/Nowhere", "YYYY-MM-DD z"), ("", "YYYY"), ("2020", "")):
+                      ("2020-01-01 Europe/Nowhere", "YYYY-MM-DD z"), ("", "YYYY"), ("2020", ""),
+                      # an hour above 12 next to a meridiem; text the format does not carry (a final newline); days that the
+                      # year does not have
+                      ("13 PM", "H A"), ("13:00 PM", "H:mm A"), ("2020-01-01\n", "YYYY-MM-DD"), ("\n2020-01-01", "YYYY-MM-DD"),
+                      ("2021-366", "YYYY-DDDD"), ("1900-366", "YYYY-DDDD"), ("2021-000", "YYYY-DDDD"), ("2021-400", "YYYY-DDDD"),
+                      ("2020-367 10:30", "YYYY-DDD HH:mm"), ("2021-0", "YYYY-DDD"), ("2021-02-29", "YYYY-MM-DD"), ("2021-04-31 00", "YYYY-MM-DD HH")):
         acc.c["evaluations"] += 1
         try:
             r = pendulum.from_format(text, fmt)
